@@ -42,6 +42,7 @@ def gen_plan(rng, tier, index):
             'noise_cov': rng.chance(0.3), 'cov_seed': rng.randrange(10 ** 6),
             'use_exact_signal': rng.chance(0.7), 'use_same_signal': rng.chance(0.4),
             'signal_cov': rng.chance(0.12), 'noise_cov_trial': rng.chance(0.2),
+            'label_offset': rng.pick([0, 0, 0, 250000, 1700000000]),
             'faults': {'rate': 0, 'kinds': []}}
     return plan
 
@@ -114,7 +115,8 @@ def _design(plan):
     cidx = cv.astype(int)
     labels = np.arange(nc, dtype=float)
     if plan['design'] in ('relabelled', 'shuffled_relabelled'):
-        labels = np.array(plan['labels'], dtype=float)   # increasing, so the k-th smallest label is model condition k
+        labels = np.array(plan['labels'], dtype=float) + float(plan.get('label_offset', 0))   # increasing, so the k-th smallest label is model condition k
+        # (with an offset: numeric stimulus ids / onsets, large relative to their spacing)
         cv = labels[cidx]
     if plan['design'] in ('matrix', 'matrix_mixed'):
         Z = np.zeros((len(cidx), nc))
